@@ -1,4 +1,4 @@
-"""Effect / alias analysis (E10): hidden state and caller-owned inputs.
+"""Effect / alias analysis (E16): hidden state and caller-owned inputs.
 
 A property that must hold *for every history of calls* needs its functions to be functions of their arguments: the
 result of a call may not depend on earlier calls, and a call may not change the objects the caller handed in (the next
